@@ -68,8 +68,11 @@ def scales_for(ck, dtype, tier):
     """boundary-directed scalar scales as bit patterns"""
     enc = lambda v: N.encode_nearest(Fraction(v), dtype)  # noqa: E731
     base = [enc(Fraction(1, 64)), enc(ck.rng.uniform(0.003, 0.05))]
+    if dtype == "float16":
+        # a scale that is subnormal in float16 (weights with absmax < 7.7e-3 under absmax/127): every change that special-cases tiny scales shows here
+        base.append(enc(Fraction(3, 2) * Fraction(2) ** -20))
     if tier == "thorough":
-        base += [enc(1), enc(Fraction(2) ** -14), enc(ck.rng.uniform(1e-4, 1e-3)), enc(ck.rng.uniform(0.5, 3.0)), enc(100), enc(Fraction(3, 2) * Fraction(2) ** -20)]
+        base += [enc(1), enc(Fraction(2) ** -14), enc(ck.rng.uniform(1e-4, 1e-3)), enc(ck.rng.uniform(0.5, 3.0)), enc(100), enc(Fraction(5, 4) * Fraction(2) ** -22)]
     return base
 
 
